@@ -113,6 +113,10 @@ type node struct {
 	edges    []edge
 	quiesc   bool
 	expanded bool
+	// ctl / sameCtl: the control state and the number of store-changing controller transitions on the path to this
+	// node since the control state last changed (divergence test of C07, see DivergeLimit)
+	ctl     string
+	sameCtl int
 }
 
 // Config selects what is explored.
@@ -124,6 +128,11 @@ type Config struct {
 	Disturbances []string // "crash", "midcrash", "error", "conflict"
 	StateCap     int
 	MemLimitMB   int // stop (exhaustive:false) when the heap exceeds this many MB; 0 = no limit
+	// DivergeLimit (C07): a path on which the controllers change the store this many times in a row while the
+	// control state (Rollout cursor, BatchRelease state, workload counts) stays the same is reported as a
+	// divergence (an object that grows or flips for ever never closes a cycle the graph analysis could find);
+	// 0 = off
+	DivergeLimit int
 	Monitors     []Monitor
 	Deadline     time.Time
 	// InjectOncePerControlState bounds WHERE user deviations are injected (see expand()).
@@ -480,7 +489,30 @@ func (ex *Explorer) addState(n *node, label string, mon MonState, budget Budget,
 		nn.parent, nn.depth = n.id, n.depth+1
 		n.edges = append(n.edges, edge{to: nn.id, label: label, fair: fair, wrote: wrote})
 	}
+	if ex.Cfg.DivergeLimit > 0 {
+		nn.ctl = ControlState(ex.W, ex.Cfg.Sc)
+		if n != nil && n.ctl == nn.ctl {
+			nn.sameCtl = n.sameCtl
+			if wrote {
+				nn.sameCtl++
+			}
+		}
+	}
 	ex.nodes = append(ex.nodes, nn)
+	if ex.Cfg.DivergeLimit > 0 && nn.sameCtl == ex.Cfg.DivergeLimit {
+		sc := ex.Cfg.Sc
+		where := "/" + sc.Kind + "-" + sc.Style
+		if sc.Traffic != "" {
+			where += "+" + sc.Traffic
+		}
+		if ro := getRollout(ex.W, sc); ro != nil {
+			_, st, _, _ := StepCursor(ro)
+			where += "/" + progressingReason(ro) + "-" + st
+		}
+		x := &Ctx{W: ex.W, Sc: sc, Mon: mon.clone(), ex: ex, node: nn}
+		x.Violate("C07/diverge/writes-without-progress"+where, fmt.Sprintf("the controllers changed the store %d times in a row (last: %s) without any change of the Rollout cursor, the BatchRelease state or the workload counts (%s): the release does not converge", nn.sameCtl, label, nn.ctl))
+		return nn.id // reported; following the diverging path further only fills the memory
+	}
 	ex.byKey[key] = append(ex.byKey[key], nn.id)
 	// search order: the undisturbed graph (no deviation budget spent) is completed first, so that every
 	// control state of a whole release is reached and used as a deviation point before the (much larger)
